@@ -271,8 +271,13 @@ def ewApply {α} (O : Ops α) (o : Ew) (xs : List α) : α :=
 
 /-- reductions -/
 inductive Red where
-  | sum | prod | max | min | mean | all | any
+  | sum | prod | max | min | mean | all | any | median
   deriving DecidableEq, Repr
+
+/-- insertion into a list sorted by `lt` -/
+def insertSorted {α} (lt : α → α → Bool) (x : α) : List α → List α
+  | [] => [x]
+  | y :: r => if lt x y then x :: y :: r else y :: insertSorted lt x r
 
 def redApply {α} (O : Ops α) (k : Red) (xs : List α) : α :=
   match k with
@@ -283,6 +288,7 @@ def redApply {α} (O : Ops α) (k : Red) (xs : List α) : α :=
   | .mean => O.div (xs.foldl O.add O.zero) (O.ofNat xs.length)
   | .all => ofBool O (xs.all fun x => !O.eq x O.zero)
   | .any => ofBool O (xs.any fun x => !O.eq x O.zero)
+  | .median => ((xs.foldl (fun acc x => insertSorted O.lt x acc) [])[(xs.length - 1) / 2]?).getD O.zero   -- torch: the lower median
 
 /-- index expression items of `x[...]` -/
 inductive Ix where
@@ -340,6 +346,10 @@ inductive Fn (α : Type) where
   | transpose (d0 d1 : Nat)
   | softmax (dim : Nat)
   | cumsum (dim : Nat)
+  /-- `x[mask]` (boolean mask over the leading axes of `x`): the selected sub-tensors, in row-major order -/
+  | mselect
+  /-- `x[mask] = v` out of place: `v` is a scalar or has one sub-tensor per selected position -/
+  | mscatter
   /-- not in the table: no semantics (empty tensor); only reachable through `whole` arguments -/
   | unknown (name : String)
 
@@ -431,6 +441,25 @@ def fnApply {α} (O : Ops α) : Fn α → List (Tn α) → Tn α
       build t.shape fun ix =>
         (List.range (ix.getD dim 0 + 1)).foldl (fun acc l => O.add acc (t.get O (setAt ix dim l))) O.zero
     | _ => ⟨[0], #[]⟩
+  | .mselect, args => match args with
+    | [x, m] =>
+      let rest := x.shape.drop m.shape.length
+      let rn := numel rest
+      let sel := (List.range (numel m.shape)).filter fun i => !O.eq (m.data.getD i O.zero) O.zero
+      ⟨sel.length :: rest, sel.foldl (fun acc i => acc ++ x.data.extract (i * rn) ((i + 1) * rn)) #[]⟩
+    | _ => ⟨[0], #[]⟩
+  | .mscatter, args => match args with
+    | [x, m, v] =>
+      let rn := numel (x.shape.drop m.shape.length)
+      let scalar := v.shape.isEmpty
+      let step := fun (st : Array α × Nat) (i : Nat) =>
+        let (acc, c) := st
+        let xs := x.data.extract (i * rn) ((i + 1) * rn)
+        if O.eq (m.data.getD i O.zero) O.zero then (acc ++ xs, c)
+        else if scalar then (acc ++ xs.map (fun _ => v.data.getD 0 O.zero), c + 1)
+        else (acc ++ v.data.extract (c * rn) ((c + 1) * rn), c + 1)
+      ⟨x.shape, ((List.range (numel m.shape)).foldl step (#[], 0)).1⟩
+    | _ => ⟨[0], #[]⟩
   | .unknown _, _ => ⟨[0], #[]⟩
 
 /-- rows of all individuals → the tensor with axis 0 -/
@@ -445,6 +474,9 @@ def tensorSem {α} (O : Ops α) : Sem (Fn α) (Tn α) := ⟨fnApply O, concatRow
 def rowOf {α} (t : Tn α) (j : Nat) : Tn α :=
   let s := t.shape.drop 1
   ⟨s, t.data.extract (j * numel s) ((j + 1) * numel s)⟩
+
+/-- row `j` of a tensor whose axis 1 is the individuals (`acceptation_history`: history × individuals) -/
+def rowOf1 {α} (O : Ops α) (t : Tn α) (j : Nat) : Tn α := fnApply O (.index [.all, .at j]) [t]
 
 end LeaspyVerif.Trace
 
@@ -468,20 +500,32 @@ inductive TOp (α : Type) where
   | transpose (d0 d1 : Int)
   | softmax (dim : Int)
   | cumsum (dim : Int)
+  | mselect                                           -- `x[mask]`, boolean mask tensor
+  | mscatter                                          -- `x[mask] = v` (recorded as the new value of `x`)
   | unknown (name : String)
 
 inductive TNode (α : Type) where
   | pop (k : Nat) (shape : List Nat)
   | ind (k : Nat) (shape : List Nat)      -- full shape, axis 0 = individuals
+  | ind1 (k : Nat) (shape : List Nat)     -- full shape, axis 1 = individuals (`acceptation_history`: history × individuals)
   | unk (k : Nat) (shape : List Nat)
   | op (o : TOp α) (args : List Nat) (shape : List Nat)   -- recorded output shape
   | escape (a : Nat) (isAssert : Bool)    -- `isAssert`: a whitelisted assertion site (raises or does nothing)
 
-/-- what the lowering knows about an earlier node: is its lowered value batched, its recorded full shape -/
+/-- what the lowering knows about an earlier node: is its lowered value batched, its recorded full shape, and how
+    the rows of a batched value make up the torch tensor:
+    `axis = 0`, `ragged = none`: stacked on axis 0 (the normal case);
+    `axis = 1`: stacked on axis 1 (row `j` is `t[:, j]`);
+    `ragged = some m`: the result of `x[mask]` with the batched boolean mask of node `m`: row `j` holds the entries
+    selected in individual `j`'s row and the torch tensor is their concatenation (shape depends on the data). -/
 structure Info where
   batched : Bool
   shape : List Nat
+  axis : Nat := 0
+  ragged : Option Nat := none
   deriving Repr
+
+def Info.plain (i : Info) : Bool := i.axis = 0 && i.ragged.isNone
 
 def normDim (d : Int) (ndim : Nat) : Nat := if d < 0 then (d + ndim).toNat else d.toNat
 
@@ -493,8 +537,8 @@ def wholeArgs (infos : List Info) (args : List Nat) : List Arg :=
 /-- The table.  Returns the lowered node and whether its value is batched.
     `row f` = the operation acts on each individual's row as `f` (dims shifted by one, row shapes);
     `whole f` = it does not: every batched argument is concatenated over all individuals first. -/
-def lowerOp {α} (infos : List Info) (o : TOp α) (args : List Nat) (outShape : List Nat) : Node (Fn α) × Bool :=
-  let ai := args.map fun a => (infos[a]?).getD ⟨true, []⟩
+def lowerPlain {α} (infos : List Info) (o : TOp α) (args : List Nat) (outShape : List Nat) : Node (Fn α) × Bool :=
+  let ai := args.map fun a => (infos[a]?).getD ⟨true, [], 0, none⟩
   let anyB := ai.any (·.batched)
   let row := fun (f : Fn α) => (Node.op f (rowArgs args), true)
   let whole := fun (f : Fn α) => (Node.op f (wholeArgs infos args), false)
@@ -505,7 +549,7 @@ def lowerOp {α} (infos : List Info) (o : TOp α) (args : List Nat) (outShape : 
       | .const t => .const t
       | .ew e => .ew e nd
       | .red k dims keep =>
-        let n0 := (ai.headD ⟨false, []⟩).shape.length
+        let n0 := (ai.headD ⟨false, [], 0, none⟩).shape.length
         .red k (if dims.isEmpty then List.range n0 else dims.map (normDim · n0)) keep
       | .view | .squeeze _ | .unsqueeze _ => .reshape outShape
       | .expand => .expand outShape
@@ -516,10 +560,12 @@ def lowerOp {α} (infos : List Info) (o : TOp α) (args : List Nat) (outShape : 
       | .transpose a b => .transpose (normDim a nd) (normDim b nd)
       | .softmax d => .softmax (normDim d nd)
       | .cumsum d => .cumsum (normDim d nd)
+      | .mselect => .mselect
+      | .mscatter => .mscatter
       | .unknown s => .unknown s
     (Node.op f (rowArgs args), false)
   else
-  let a0 := ai.headD ⟨true, []⟩
+  let a0 := ai.headD ⟨true, [], 0, none⟩
   let n0 := a0.shape.length
   match o with
   | .const t => whole (.const t)
@@ -563,15 +609,94 @@ def lowerOp {α} (infos : List Info) (o : TOp α) (args : List Nat) (outShape : 
     else whole (.transpose (normDim a n0) (normDim b n0))
   | .softmax d => if normDim d n0 ≠ 0 then row (.softmax (normDim d n0 - 1)) else whole (.softmax 0)
   | .cumsum d => if normDim d n0 ≠ 0 then row (.cumsum (normDim d n0 - 1)) else whole (.cumsum 0)
+  | .mselect => whole .mselect      -- the row-wise configurations are in `lowerOp`
+  | .mscatter => whole .mscatter
   | .unknown s => whole (.unknown s)
 
+def TOp.name {α} : TOp α → String
+  | .const _ => "const" | .ew _ => "ew" | .red _ _ _ => "red" | .view => "view" | .squeeze _ => "squeeze"
+  | .unsqueeze _ => "unsqueeze" | .expand => "expand" | .getitem _ => "getitem" | .cat _ => "cat" | .stack _ => "stack"
+  | .matmul => "matmul" | .transpose _ _ => "transpose" | .softmax _ => "softmax" | .cumsum _ => "cumsum"
+  | .mselect => "mselect" | .mscatter => "mscatter" | .unknown s => s
+
+/-- The table, continued: values whose rows are not stacked on axis 0.
+    * axis 1 (`acceptation_history`, history × individuals): reductions / index expressions / concatenations that leave
+      axis 1 alone act on each individual's column; `x.unsqueeze(0)` of an axis-0 value produces such a value;
+    * ragged (`x[mask]` with a batched boolean mask of the same leading axis): each individual's row keeps its own
+      selected entries; elementwise operations with scalars keep that layout; `x[mask] = v` with `v` selected by the SAME
+      mask node (or a scalar) writes each individual's entries back into its own row.
+    Every other use of such a value is outside the table (fail-closed: `unknown "layout:…"`, typed `mixed`). -/
+def lowerOp {α} (infos : List Info) (o : TOp α) (args : List Nat) (outShape : List Nat) : Node (Fn α) × Info :=
+  let ai := args.map fun a => (infos[a]?).getD ⟨true, [], 0, none⟩
+  let nd := outShape.length
+  let bad : Node (Fn α) × Info := (Node.op (.unknown ("layout:" ++ o.name)) (wholeArgs infos args), ⟨false, outShape, 0, none⟩)
+  let rowI := fun (f : Fn α) (axis : Nat) (rg : Option Nat) => ((Node.op f (rowArgs args), ⟨true, outShape, axis, rg⟩) : Node (Fn α) × Info)
+  let plain := fun (_ : Unit) => let (n, b) := lowerPlain infos o args outShape; ((n, ⟨b, outShape, 0, none⟩) : Node (Fn α) × Info)
+  let special := ai.any fun i => i.batched && !i.plain
+  if !special then
+    match o, ai with
+    | .mselect, [x, m] =>
+      if x.batched && m.batched && m.shape.length ≥ 1 && m.shape.length ≤ x.shape.length then rowI .mselect 0 (args[1]?)
+      else plain ()
+    | .mscatter, [x, m, v] =>
+      if x.batched && m.batched && !v.batched && v.shape.isEmpty && m.shape.length ≥ 1 && m.shape.length ≤ x.shape.length
+      then rowI .mscatter 0 none else plain ()
+    | .unsqueeze d, [x] =>
+      if x.batched && normDim d (x.shape.length + 1) = 0 then rowI (.reshape (1 :: x.shape.drop 1)) 1 none else plain ()
+    | _, _ => plain ()
+  else
+    let bs := ai.filter (·.batched)
+    let b0 := bs.headD ⟨true, [], 0, none⟩
+    let sameLayout := bs.all fun i => i.axis = b0.axis && i.ragged = b0.ragged
+    let scalarsOnly := ai.all fun i => i.batched || i.shape.isEmpty
+    match o with
+    | .ew e =>
+      if sameLayout && scalarsOnly then
+        if b0.ragged.isSome then rowI (.ew e nd) 0 b0.ragged
+        else if bs.all (fun i => i.shape.length = nd) && nd ≥ 2 then rowI (.ew e (nd - 1)) 1 none else bad
+      else bad
+    | .red k dims keep =>
+      match ai with
+      | [x] =>
+        let n0 := x.shape.length
+        let ds := if dims.isEmpty then List.range n0 else dims.map (normDim · n0)
+        if x.ragged.isSome || x.axis ≠ 1 || ds.contains 1 then bad
+        else rowI (.red k (ds.map fun d => if d < 1 then d else d - 1) keep) (if ds.contains 0 && !keep then 0 else 1) none
+      | _ => bad
+    | .getitem ixs =>
+      match ai with
+      | [x] =>
+        if x.ragged.isSome || x.axis ≠ 1 then bad else
+        match expandEll ixs x.shape.length with
+        | first :: rest =>
+          if !first.consumes then bad else
+          let ax := match first with | .at _ => 0 | _ => 1
+          match rest with
+          | [] => rowI (.index [first]) ax none
+          | .all :: tail => rowI (.index (first :: tail)) ax none
+          | _ => bad
+        | [] => bad
+      | _ => bad
+    | .cat d =>
+      let ok := ai.all fun i => i.batched && i.axis = 1 && i.ragged.isNone && i.shape.length = nd
+      let dd := normDim d nd
+      if ok && dd ≠ 1 then rowI (.cat (if dd = 0 then 0 else dd - 1)) 1 none else bad
+    | .mscatter =>
+      match ai with
+      | [x, m, v] =>
+        if x.batched && x.plain && m.batched && m.plain && v.batched && v.axis = 0 && v.ragged.isSome && v.ragged = args[1]?
+        then rowI .mscatter 0 none else bad
+      | _ => bad
+    | _ => bad
+
 def lowerNode {α} (infos : List Info) : TNode α → Node (Fn α) × Info
-  | .pop k s => (.pop k, ⟨false, s⟩)
-  | .ind k s => (.ind k, ⟨true, s⟩)
-  | .unk k s => (.unk k, ⟨false, s⟩)
-  | .op o args s => let (nd, b) := lowerOp infos o args s; (nd, ⟨b, s⟩)
+  | .pop k s => (.pop k, ⟨false, s, 0, none⟩)
+  | .ind k s => (.ind k, ⟨true, s, 0, none⟩)
+  | .ind1 k s => (.ind k, ⟨true, s, 1, none⟩)
+  | .unk k s => (.unk k, ⟨false, s, 0, none⟩)
+  | .op o args s => lowerOp infos o args s
   | .escape a isAssert =>
-    let i := (infos[a]?).getD ⟨true, []⟩
+    let i := (infos[a]?).getD ⟨true, [], 0, none⟩
     -- an assertion only raises: it is kept as a (consumer-less) identity node
     (if isAssert then .op (.ew .id i.shape.length) [⟨a, false⟩] else .escape a, i)
 
@@ -587,6 +712,24 @@ def inputsOf {α} (pops inds unks : List (Tn α)) : Inputs (Tn α) :=
   { pop := fun k => (pops[k]?).getD ⟨[0], #[]⟩,
     ind := fun k j => rowOf ((inds[k]?).getD ⟨[0], #[]⟩) j,
     unk := fun k => (unks[k]?).getD ⟨[0], #[]⟩ }
+
+/-- the same with, for each individual-level input, the axis (0 or 1) on which the individuals are -/
+def inputsOfAx {α} (O : Ops α) (pops : List (Tn α)) (inds : List (Tn α × Nat)) (unks : List (Tn α)) : Inputs (Tn α) :=
+  { pop := fun k => (pops[k]?).getD ⟨[0], #[]⟩,
+    ind := fun k j => match inds[k]? with
+      | some (t, ax) => if ax = 1 then rowOf1 O t j else rowOf t j
+      | none => ⟨[0], #[]⟩,
+    unk := fun k => (unks[k]?).getD ⟨[0], #[]⟩ }
+
+/-- the torch tensor of a value, given its layout -/
+def layoutWhole {α} (O : Ops α) (n : Nat) (i : Info) (v : Val (Tn α)) : Tn α :=
+  match v with
+  | .un r => r
+  | .ba g =>
+    let rows := (List.range n).map g
+    if i.ragged.isSome then fnApply O (.cat 0) rows
+    else if i.axis = 1 then fnApply O (.transpose 0 1) [concatRows rows]
+    else concatRows rows
 
 /-- ancestors-or-self of node `o` -/
 def Node.argIds {φ} : Node φ → List Nat
